@@ -49,3 +49,21 @@ Proof.
   rewrite andb_false_r. reflexivity.
 Qed.
 Print Assumptions deliver_gen.
+
+(* setSock(reconnecting): the regenerated first test of setSock (a reconnection is refused once close() has cleared keep_running)
+   is the condition under which the model's outer loop stops asking for one.  In the sequential model the refusal is therefore never
+   reached (close() from another thread during the wait is exercised in virtual time, harness close_during_wait). *)
+Theorem reconnect_guard_gen : forall cfg a rest r s,
+  attempts_loop cfg (a :: rest) r s =
+  match set_sock cfg a r s with
+  | (Kbd, s1) => (Kbd, s1)
+  | (Normal, s1) =>
+    if negb (reconnect cfg =? 0) && negb (app_reconnect_refused true (keep_running s1))
+    then attempts_loop cfg rest true s1 else (Normal, s1)
+  end.
+Proof.
+  intros cfg a rest r s. cbn [attempts_loop].
+  destruct (set_sock cfg a r s) as [[|] s1]; [|reflexivity].
+  unfold app_reconnect_refused. cbn [andb]. rewrite negb_involutive. reflexivity.
+Qed.
+Print Assumptions reconnect_guard_gen.
